@@ -248,6 +248,18 @@ props['C16'] = {
     'runs': [{'use': 'ev-' + m} for m in EV] + ['ev56-IsGTID', 'evmaria-IsGTID', 'ev56-StripChecksum', 'evmaria-StripChecksum'],
 }
 
+for n, f in [('json-column', 'ColumnData.MarshalJSON'), ('json-event', 'StreamEvent.MarshalJSON'), ('json-tx', 'Transaction.MarshalJSON')]:
+    runs[n] = {'pkg': '.', 'func': f, 'observer': 'ColumnType_String,StatementType_String'}
+props['C20'] = {
+    'level': 'other',
+    'explanation': "Decided: the value handed to encoding/json.Marshal by each of the three custom marshalers has, under every JSON key of the statement, the right source field (positions, events in order, table, kind, SQL iff non-empty else both row-image lists, column name / type name / absent flag, data = JSON null exactly for a nil value and otherwise a string with the value's bytes, so the empty string stays distinct from NULL). Assumed, not decided: that encoding/json succeeds on these values and produces well-formed JSON with correct escaping and UTF-8 handling (reflection-based library outside the verifiable subset); ColumnType.String / StatementType.String are abstract here.",
+    'claim': "Field-mapping postconditions of ColumnData / StreamEvent / Transaction.MarshalJSON proved over the real code; JSON well-formedness is encoding/json's contract (assumed).",
+    'note': "encoding/json (reflection) is trusted; type-name tables are abstract.",
+    'technique': GEN + "; postconditions over the value passed to the library call (by-name binding of locals)",
+    'trusted': ["encoding/json.Marshal: succeeds on these value types and emits well-formed, correctly escaped JSON"],
+    'runs': ['json-column', 'json-event', 'json-tx'],
+}
+
 NA = {
 }
 
